@@ -1,42 +1,239 @@
 package gocv
 
 import (
+	"fmt"
+	"go/types"
+
 	"golang.org/x/tools/go/ssa"
 )
 
-// Channel support (filled in for the concurrency properties).
+// Channels, thread-modular.
+//
+// A channel is an opaque reference with two timeless attributes:
+//   chan!cap(c)        its capacity (fixed by make)
+//   chan!closedEver(c) "c has been closed at some moment up to now" — only ever assumed
+//                      positively (after a receive that reported closed, after our own close),
+//                      which is sound because a closed channel stays closed.
+// Message invariants (`chanmsg T (v): P(v)`) are per package and element type: every send of
+// the package's functions under contract proves P, every receive that delivers a message
+// assumes it. Every operation is recorded in the path's call log so that contracts can speak
+// about it:
+//   chanSend(ch, v)            a send that was performed (blocking, or the chosen select case)
+//   chanRecv(ch) -> (v, ok)    a receive that was performed
+//   pollFull(ch, v)            a non-blocking send that found no room (default taken)
+//   pollEmpty(ch)              a non-blocking receive that found nothing (default taken)
+//   chanClose(ch)
+// What other threads do to a channel is never assumed: a receive returns an arbitrary message
+// satisfying the invariant (or closed), a select may take any case whose channel is non-nil.
+
+const fChanCap = "|chan!cap|"
+const fChanClosed = "|chan!closedEver|"
+
+func (E *Engine) chanDecls() {
+	E.declare(fChanCap, "(Int) Int")
+	E.declare(fChanClosed, "(Int) Bool")
+}
 
 func (E *Engine) chanCall(st *State, in ssa.Instruction, key string, cc *ssa.CallCommon, args []*Val, res ssa.Value) ([]*State, bool) {
 	return nil, false
 }
 
 func (E *Engine) chanClosed(h map[string]string, c *Val) string {
-	a := E.heapArrSort(h, "chan!closed", "(Array Int Bool)")
-	return sx("select", a, c.S)
+	E.chanDecls()
+	return sx(fChanClosed, c.S)
+}
+
+func (E *Engine) chanCap(c *Val) string {
+	E.chanDecls()
+	return sx(fChanCap, c.S)
+}
+
+func chanElem(T types.Type) types.Type {
+	if c, ok := types.Unalias(T).Underlying().(*types.Chan); ok {
+		return c.Elem()
+	}
+	return nil
+}
+
+// chanMsgSpec finds the message invariant declared for channels of this element type in the
+// package of the function under verification.
+func (E *Engine) chanMsgSpec(elem types.Type) *ChanSpec {
+	if E.cur == nil || E.cur.fn == nil || E.cur.fn.Pkg == nil {
+		return nil
+	}
+	if E.chanMsgs == nil {
+		E.chanMsgs = map[string]*ChanSpec{}
+		for _, cs := range E.CS.ChanMsgs {
+			T, ok := E.tryResolve(cs.Msg.Ctx, cs.Elem)
+			if !ok {
+				E.note("chanmsg: cannot resolve element type %s", cs.Path)
+				continue
+			}
+			E.chanMsgs[cs.Msg.Ctx.PkgPath+"|"+typeKey(T)] = cs
+		}
+	}
+	return E.chanMsgs[E.cur.fn.Pkg.Pkg.Path()+"|"+typeKey(elem)]
+}
+
+func (E *Engine) chanMsgFormula(st *State, cs *ChanSpec, ch, v *Val, goal bool) string {
+	vars := map[string]*Val{cs.Var: v, "ch": ch}
+	ev := &cenv{E: E, st: st, vars: vars, heap: st.heap, ctx: cs.Msg.Ctx, fc: E.cur, goal: goal}
+	return ev.evalBool(cs.Msg.Expr)
+}
+
+// recvValue: the value a receive on ch yields: (v, ok). ok is unconstrained; !ok means closed
+// and drained: the zero value. ok means a message: the invariant holds.
+func (E *Engine) recvValue(st *State, ch *Val) (*Val, *Val) {
+	E.chanDecls()
+	elem := chanElem(ch.T)
+	var facts []string
+	fv := E.freshVal(elem, "recv", &facts)
+	st.assume(facts...)
+	st.assume(E.allocFacts(st, fv)...)
+	E.assumeTypeInvs(st, fv)
+	ok := E.freshConst("recvok", SBool)
+	if cs := E.chanMsgSpec(elem); cs != nil {
+		st.assume(sx("=>", ok, E.chanMsgFormula(st, cs, ch, fv, false)))
+		if cs.NoClose {
+			st.assume(ok)
+		}
+	}
+	st.assume(sx("=>", not(ok), sx(fChanClosed, ch.S)))
+	v := E.iteVal(ok, fv, E.zeroVal(elem))
+	return v, boolVal(ok)
+}
+
+func (E *Engine) logChan(st *State, label string, args []*Val, res *Val) {
+	h := copyHeap(st.heap)
+	st.log = append(st.log, CallEvent{Label: label, Args: args, Res: res, Heap: h, HeapAfter: h})
+}
+
+func (E *Engine) sendCheck(st *State, in ssa.Instruction, ch, v *Val) {
+	if cs := E.chanMsgSpec(chanElem(ch.T)); cs != nil && E.dry == 0 {
+		f := E.chanMsgFormula(st, cs, ch, v, true)
+		E.oblige(st, "chan-msg", E.site(in), f, "message sent satisfies the channel's invariant: "+cs.Msg.Text, E.pos(in), cs.Msg)
+	}
 }
 
 func (E *Engine) doSelect(st *State, x *ssa.Select) []*State {
-	panic(engineErr("select not supported yet"))
+	E.chanDecls()
+	tup := x.Type().(*types.Tuple)
+	type cse struct {
+		ch, send *Val
+		dir      types.ChanDir
+		slot     int // index of the received value in the result tuple (recv cases)
+	}
+	var cases []cse
+	slot := 2
+	for _, s := range x.States {
+		c := cse{ch: E.val(st, s.Chan), dir: s.Dir}
+		if s.Dir == types.SendOnly {
+			c.send = E.val(st, s.Send)
+		} else {
+			c.slot = slot
+			slot++
+		}
+		cases = append(cases, c)
+	}
+	mk := func(n *State, idx int, ok *Val, got *Val, gotSlot int) {
+		t := &Val{T: tup, F: make([]*Val, tup.Len())}
+		t.F[0] = &Val{T: tInt, S: intLit(int64(idx)), Sort: SInt}
+		if ok == nil {
+			ok = boolVal("false")
+		}
+		t.F[1] = ok
+		for i := 2; i < tup.Len(); i++ {
+			if i == gotSlot {
+				t.F[i] = got
+			} else {
+				t.F[i] = E.zeroVal(tup.At(i).Type())
+			}
+		}
+		n.regs[x] = t
+	}
+	var out []*State
+	for i, c := range cases {
+		n := st.clone()
+		// a nil channel is never ready
+		n.assume(not(eq(c.ch.S, "0")))
+		if c.dir == types.SendOnly {
+			E.sendCheck(n, x, c.ch, c.send)
+			E.logChan(n, "chanSend", []*Val{c.ch, c.send}, nil)
+			mk(n, i, nil, nil, -1)
+		} else {
+			v, ok := E.recvValue(n, c.ch)
+			E.logChan(n, "chanRecv", []*Val{c.ch}, &Val{T: types.NewTuple(), F: []*Val{v, ok}})
+			mk(n, i, ok, v, c.slot)
+		}
+		out = append(out, n)
+	}
+	if !x.Blocking {
+		n := st.clone()
+		for _, c := range cases {
+			if c.dir == types.SendOnly {
+				E.logChan(n, "pollFull", []*Val{c.ch, c.send}, nil)
+			} else {
+				E.logChan(n, "pollEmpty", []*Val{c.ch}, nil)
+			}
+		}
+		mk(n, -1, nil, nil, -1)
+		out = append(out, n)
+	}
+	if len(out) == 0 {
+		// select {} blocks forever
+		st.assume("false")
+		return []*State{}
+	}
+	return out
 }
 
 func (E *Engine) doSend(st *State, x *ssa.Send) []*State {
-	panic(engineErr("send not supported yet"))
+	E.chanDecls()
+	ch := E.val(st, x.Chan)
+	v := E.val(st, x.X)
+	// a send on a nil channel blocks forever: the continuation is unreachable
+	st.assume(not(eq(ch.S, "0")))
+	E.sendCheck(st, x, ch, v)
+	E.logChan(st, "chanSend", []*Val{ch, v}, nil)
+	return nil
 }
 
 func (E *Engine) doRecv(st *State, x *ssa.UnOp, ch *Val) []*State {
-	panic(engineErr("receive not supported yet"))
+	E.chanDecls()
+	st.assume(not(eq(ch.S, "0")))
+	v, ok := E.recvValue(st, ch)
+	E.logChan(st, "chanRecv", []*Val{ch}, &Val{T: types.NewTuple(), F: []*Val{v, ok}})
+	if x.CommaOk {
+		st.regs[x] = &Val{T: x.Type(), F: []*Val{v, ok}}
+	} else {
+		st.regs[x] = v
+	}
+	return nil
 }
 
 func (E *Engine) makeChan(st *State, x *ssa.MakeChan) *Val {
+	E.chanDecls()
 	ref := E.newObject(st, "chan")
 	sz := E.val(st, x.Size)
-	capA := E.heapArrSort(st.heap, "chan!cap", "(Array Int Int)")
-	st.heap["chan!cap"] = sx("store", capA, ref, sz.S)
-	clA := E.heapArrSort(st.heap, "chan!closed", "(Array Int Bool)")
-	st.heap["chan!closed"] = sx("store", clA, ref, "false")
+	if E.dry == 0 {
+		E.oblige(st, "make-chan-size", E.site(x), sx(">=", sz.S, "0"), "channel size is not negative", E.pos(x), nil)
+	}
+	st.assume(eq(sx(fChanCap, ref), sz.S))
 	return &Val{T: x.Type(), S: ref, Sort: SInt}
 }
 
+// chanClose: close(c). Closing a nil channel panics; closing twice panics too, which is not
+// provable thread-modularly in general: it is an obligation only when the function's contract
+// asks for it (`requires !closed(c)` style clauses are the caller's business), otherwise a note.
 func (E *Engine) chanClose(st *State, in ssa.Instruction, c *Val) {
-	panic(engineErr("close not supported yet"))
+	E.chanDecls()
+	if E.dry == 0 {
+		E.oblige(st, "nil", E.site(in)+".close", not(eq(c.S, "0")), "close of a non-nil channel", E.pos(in), nil)
+	}
+	if cs := E.chanMsgSpec(chanElem(c.T)); cs != nil && cs.NoClose && E.dry == 0 {
+		E.oblige(st, "chan-noclose", E.site(in), "false", "channels carrying "+cs.Path+" are declared never closed in this package", E.pos(in), cs.Msg)
+	}
+	st.assume(sx(fChanClosed, c.S))
+	E.logChan(st, "chanClose", []*Val{c}, nil)
+	E.sharedStableCheckAll(st, in, fmt.Sprintf("close#%s", E.site(in)))
 }
